@@ -173,7 +173,7 @@ class Exec:
         if op in named:
             return ("bv", bv(named[op]))
         if op == "const SAFE":
-            return ("bool", "true")   # the checked instantiation (SAFE = true) is the one analysed
+            return ("bool", "true" if getattr(self.ctx, "safe", True) else "false")   # which instantiation is analysed
         if op == "const <C as CellType>::ZERO":
             return ("cellzero",)
         if op == "const true":
@@ -293,6 +293,10 @@ class Exec:
             return [(("bv", "(ite (bvule %s %s) %s %s)" % (x, y, x, y)), path)]
         if re.search(r"mut_ptr::<impl \*mut C>::(wrapping_add|add)$", c):
             return [(("ptr", "(bvadd %s (bvmul %s %s))" % (smt_of(a[0]), smt_of(a[1]), bv(self.ctx.w))), path)]
+        if re.search(r"(mut_ptr::<impl \*mut C>|const_ptr::<impl \*const C>)::(wrapping_sub|sub)$", c):
+            return [(("ptr", "(bvsub %s (bvmul %s %s))" % (smt_of(a[0]), smt_of(a[1]), bv(self.ctx.w))), path)]
+        if re.search(r"const_ptr::<impl \*const C>::(wrapping_add|add|wrapping_offset|offset)$", c):
+            return [(("ptr", "(bvadd %s (bvmul %s %s))" % (smt_of(a[0]), smt_of(a[1]), bv(self.ctx.w))), path)]
         if re.search(r"mut_ptr::<impl \*mut C>::(wrapping_offset|offset)$", c):
             return [(("ptr", "(bvadd %s (bvmul %s %s))" % (smt_of(a[0]), smt_of(a[1]), bv(self.ctx.w))), path)]
         if re.search(r"const_ptr::<impl \*const OpCode<C>>::add$", c):
@@ -367,6 +371,8 @@ class Exec:
 
     # -- running
     def run_fn(self, fn, args, path, collect_panics_into=None):
+        self.ctx.invocations = getattr(self.ctx, "invocations", 0) + 1
+        self.invocation = self.ctx.invocations
         env = {}
         for (pname, pty), v in zip(fn["params"], args):
             env[pname] = v
@@ -384,15 +390,18 @@ class Exec:
     def _exec_block(self, fn, bb, env, path, out, depth):
         if depth > 200:
             raise Unsupported("block depth (loop?) in " + fn["name"])
-        if (fn["name"], bb) in self.ctx.cuts:
+        if self.ctx.cuts:
+            # loop cut: arriving a second time at a block of the same invocation ends the path
+            # (one iteration of the loop has been executed: an inductive step)
+            key = (getattr(self, "invocation", 0), fn["name"], bb)
             seen = getattr(path, "visits", {})
-            n = seen.get((fn["name"], bb), 0)
-            if n >= 1:
-                # back at the loop head after one iteration: an inductive cut
+            if key in seen:
+                if not any(fn["name"] == c[0] for c in self.ctx.cuts):
+                    raise Unsupported("loop in " + fn["name"])
                 out.append((("cut", dict(env)), path))
                 return
             path.visits = dict(seen)
-            path.visits[(fn["name"], bb)] = n + 1
+            path.visits[key] = 1
         lines = fn["blocks"][bb]
         env = dict(env)
         for line in lines[:-1]:
@@ -420,6 +429,8 @@ class Exec:
                         cond = "(= %s %s)" % (smt_of(v), bv(int(k)))
                     taken_conds.append(cond)
                 if cond in ("(not true)", "false"):
+                    continue
+                if cond == "(and true (not (not false)))":
                     continue
                 p2 = path.clone()
                 p2.cond.append(cond)
@@ -520,6 +531,8 @@ def solve(script, extra_timeout=20):
 
 def main():
     tier = sys.argv[1] if len(sys.argv) > 1 else "quick"
+    # optional second argument: which lemma families to run ("checked" = L1, L4, L5; "unchecked" = L6)
+    families = sys.argv[2] if len(sys.argv) > 2 else "checked"
     t0 = time.time()
     out = {"lemmas": [], "functions_encoded": [], "inconclusive": [], "violations": []}
     try:
@@ -538,8 +551,11 @@ def main():
             out["mir_blocks"][name] = len(fns[name]["blocks"])
         widths = [1, 2, 4, 8]
         for wb in widths:
-            lemmas_for_width(mir, fns, wb, out, tier)
-            ops_lemmas_for_width(mir, fns, wb, out, tier)
+            if "unchecked" in families:
+                unchecked_ops_lemmas_for_width(mir, fns, wb, out, tier)
+            if "checked" in families.replace("unchecked", ""):
+                lemmas_for_width(mir, fns, wb, out, tier)
+                ops_lemmas_for_width(mir, fns, wb, out, tier)
         finish(out)
     except Unsupported as e:
         out["inconclusive"].append("MIR construct outside the translator: %s" % e)
@@ -685,10 +701,7 @@ def ops_lemmas_for_width(mir, fns, wb, out, tier):
         if scan:
             cond = ctx.opword(1)
             pre.append("(and (bvsle %s %s) (bvsle %s %s))" % (mn, cond, cond, mx))   # C11: every operand is inside the window
-            ctx.cuts = {(name, "bb3")}
-            head = fns[name]["blocks"].get("bb2", [""])[-1]
-            if head != "goto -> bb3;":
-                raise Unsupported("loop head of %s is not bb3" % name)
+            ctx.cuts = {(name, "loop")}
         ex = Exec(mir, ctx, fns)
         conts = ex.run_fn(fns[name], [("ref_ops",), ("ptr", m0), ("ipref", 0), ("cellzero",), ("cellzero",)], Path(ctx, mem, pre))
         args = (j0, shift)
@@ -747,6 +760,58 @@ def ops_lemmas_for_width(mir, fns, wb, out, tier):
         out.setdefault("ops_paths", {})["%s/w%d" % (name, wb)] = {"returning": len(conts), "loop_cuts": n_cut, "panic_paths": len(ex.results)}
 
 
+def unchecked_ops_lemmas_for_width(mir, fns, wb, out, tier):
+    """L6: the unchecked instantiation (SAFE = false, static mode) of movl/movr/scanl/scanr is plain
+    pointer arithmetic: the move adds shift cells, a scan iteration reads the cell at cond and adds
+    shift cells, nothing touches the Memory state, and the next instruction is at ip + 2 / ip + 3."""
+    B = 1 << 40
+    for name in ("movl", "movr", "scanl", "scanr"):
+        scan = name.startswith("scan")
+        ctx = Ctx(wb)
+        ctx.safe = False
+        mem, pre = pre_state(ctx)
+        mn, mx, m0 = ctx.fresh("min_accessed"), ctx.fresh("max_accessed"), ctx.fresh("mem_ptr")
+        ctx.ops = {0: mn, 1: mx}
+        w = bv(wb)
+        shift = ctx.opword(2 if scan else 1)
+        pre = pre + ["(and (bvsge %s %s) (bvsle %s %s))" % (shift, bv(-B), shift, bv(B))]
+        cond = None
+        if scan:
+            cond = ctx.opword(1)
+            pre.append("(and (bvsge %s %s) (bvsle %s %s))" % (cond, bv(-B), cond, bv(B)))
+            ctx.cuts = {(name, "loop")}
+        ex = Exec(mir, ctx, fns)
+        conts = ex.run_fn(fns[name], [("ref_ops",), ("ptr", m0), ("ipref", 0), ("cellzero",), ("cellzero",)], Path(ctx, mem, pre))
+        args = (m0, shift)
+        n = 0
+        for (rv, p) in conts:
+            for ev in p.events:
+                if ev[0] == "read":
+                    want = "(bvadd %s (bvmul %s %s))" % (m0, cond, w)
+                    obligation(out, ctx, wb, "L6 %s (unchecked): the loop condition reads the cell at cond" % name, p.cond, ["(not (= %s %s))" % (ev[1], want)], mem, args)
+                if ev[0] in ("alloc", "copy", "dealloc"):
+                    out["violations"].append({"lemma": "L6 %s (unchecked): no allocator traffic" % name, "cell_bytes": wb, "answer": "sat", "solver": "structural", "seconds": 0, "model": repr(ev)})
+            if rv[0] == "cut":
+                r = smt_of(rv[1]["_2"])
+                target = "(bvadd %s (bvmul %s %s))" % (m0, shift, w)
+            elif rv == ("dispatched",):
+                d = [ev for ev in p.events if ev[0] == "dispatch"][-1]
+                r = d[1]
+                target = m0 if scan else "(bvadd %s (bvmul %s %s))" % (m0, shift, w)
+                want_ip = 3 if scan else 2
+                if d[2] != ("ipref", want_ip):
+                    out["violations"].append({"lemma": "L6 %s (unchecked): the next instruction is at ip + %d" % (name, want_ip), "cell_bytes": wb, "answer": "sat", "solver": "structural", "seconds": 0, "model": repr(d[2])})
+            else:
+                raise Unsupported("unexpected end of %s: %r" % (name, rv))
+            n += 1
+            same = "(and (= %s %s) (= %s %s) (= %s %s))" % (p.mem[0], mem[0], p.mem[1], mem[1], p.mem[2], mem[2])
+            obligation(out, ctx, wb, "L6 %s (unchecked): the pointer moves by exactly shift cells per step and the tape state is untouched" % name, p.cond, ["(not (and (= %s %s) %s))" % (r, target, same)], mem, args)
+            obligation(out, ctx, wb, "W %s (unchecked): path feasible" % name, p.cond, [], mem, args, expect="sat-any:%s:%d:unchecked" % (name, wb))
+        if n < (2 if scan else 1):
+            raise Unsupported("%s (unchecked): expected paths missing" % name)
+        out.setdefault("ops_paths", {})["%s/unchecked/w%d" % (name, wb)] = {"returning": len(conts), "panic_paths": len(ex.results)}
+
+
 _PENDING = []
 _POOL = None
 
@@ -797,8 +862,15 @@ def finish(out):
             small += "(assert (bvule %s %s))\n" % (mem[1], bv(4096))
             small += "(assert (and (bvsge %s %s) (bvsle %s %s)))\n" % (mem[2], bv(-4096), mem[2], bv(4096))
             for a in set(args):
+                if rec["lemma"].startswith("L6") and a == args[0]:
+                    continue
                 small += "(assert (and (bvsge %s %s) (bvsle %s %s)))\n" % (a, bv(-4096), a, bv(4096))
             extra = rec.get("_extra_values", [])
+            if rec["lemma"].startswith("L6"):
+                small += "(assert (not (= %s %s)))\n" % (args[1], bv(0))   # a stationary scan cannot be replayed natively
+                small += "(assert (and (bvsge %s %s) (bvsle %s %s)))\n" % (args[1], bv(-8), args[1], bv(8))
+                if len(extra) >= 3:
+                    small += "(assert (and (bvsge %s %s) (bvsle %s %s)))\n" % (extra[2], bv(-4), extra[2], bv(4))
             for e in extra:
                 small += "(assert (and (bvsge %s %s) (bvsle %s %s)))\n" % (e, bv(-64), e, bv(64))
             small += "(check-sat)\n(get-value (%s %s %s %s%s))\n" % (mem[1], mem[2], args[0], args[1], "".join(" " + e for e in extra))
